@@ -16,6 +16,7 @@ package flow
 
 import (
 	"fmt"
+	"math"
 	"reflect"
 	"sync"
 
@@ -696,6 +697,10 @@ func IsValidRule(rule *Rule) error {
 	}
 	if rule.Threshold < 0 {
 		return errors.New("negative Threshold")
+	}
+	if math.IsNaN(rule.Threshold) || math.IsInf(rule.Threshold, 0) {
+		// (NaN compares false with everything: such a rule would never reject anything)
+		return errors.New("Threshold is not a finite number")
 	}
 	if int32(rule.TokenCalculateStrategy) < 0 {
 		return errors.New("negative TokenCalculateStrategy")
